@@ -91,7 +91,10 @@ def envelopes(sweep, tier='quick'):
 
 def make_env(sender, rcpts, hdr, body):
     e = Envelope(sender, list(rcpts))
-    e.parse(hdr + b'\r\n' + body)
+    # header block parsed, body assigned as it is: the envelope handed to the relay must not depend on the parser that the
+    # receiving edge is going to use on the same bytes
+    e.parse(hdr + b'\r\n')
+    e.message = body
     e.client = {'ip': '192.0.2.9', 'name': 'client'}
     e.receiver = 'origin.test'
     e.timestamp = 0
